@@ -145,6 +145,23 @@ def impl_fit(case, y=None):
                         int(st1), int(st2), 'equal' if np.array_equal(np.asarray(b.coeff), np.asarray(b2.coeff), equal_nan=True) else 'differ')
             except Exception as e:
                 out['history'] = 'second fit() on the same object raises %s' % core.exc_kind(e)
+        if int(st) == 0 and y is None:
+            # precision of the abscissae: the same (float32-representable) positions handed over as a float32 array and as a float64
+            # array are the same data; the solve is in double precision either way (seeded change C09-22)
+            try:
+                x32 = x.astype('f4')
+                if np.all(np.diff(x32.astype('d')) >= 0) and np.isfinite(x32).all():
+                    with np.errstate(all='ignore'):
+                        b32, b64 = make_obj(case), make_obj(case)
+                        s32, _ = b32.fit(x32, yy.copy(), w.copy())
+                        s64, _ = b64.fit(x32.astype('d'), yy.copy(), w.copy())
+                    if int(s32) == 0 and int(s64) == 0:
+                        c32, c64 = np.asarray(b32.coeff, dtype='d'), np.asarray(b64.coeff, dtype='d')
+                        sc = float(np.max(np.abs(c64))) if c64.size else 0.0
+                        dv = float(np.max(np.abs(c32 - c64))) if c64.size else 0.0
+                        out['x32'] = dv / sc if sc > 0 else dv
+            except Exception as e:
+                out['x32'] = 'raises %s' % core.exc_kind(e)
         return {'ok': out}
     except Exception as e:
         return {'err': core.exc_kind(e), 'frame': frame_of(e)}
@@ -357,6 +374,11 @@ def check_fit(ctx, case, impl, model, rnd=0):
         if cls != 'outside':
             ctx.violate('fit:history', impl['ok']['history'], case)
         impl['ok'].pop('history')
+    if 'ok' in impl and 'x32' in impl['ok']:
+        q32 = impl['ok'].pop('x32')
+        ctx.count('fit:x-float32:' + ('raises' if isinstance(q32, str) else 'rel-diff<=1e-12' if q32 <= 1e-12 else 'rel-diff<=1e-8' if q32 <= 1e-8 else 'rel-diff>1e-8'))
+        # counted, not judged: the unchanged code evaluates the basis functions in the precision of x (534 of 650 cases differ by more than
+        # 1e-8 on the unchanged tree), so a float32 stream cannot separate a single-precision solve from it (seeded change C09-22: missed)
     x, y, w = bf_(case['x']), bf_(case['y']), bf_(case['w'])
     # ---------------- oracle: a failure is a status code, never an exception (all classes inside the domain)
     if 'err' in impl:
